@@ -60,43 +60,43 @@ CHECKS.update({
  "C18": dict(
   level="exploration",
   technique="bounded-exhaustive enumeration of documents x starting nodes x relative expressions against the reference, plus path-split composition checked implementation-against-itself",
-  text="All forests <=3/4 nodes x 4 decorations: every node of every kind as Exec starting cursor for ~190 relative expressions (vs. reference at context (n,1,1)); 30 prefixes x 50 suffixes (incl. numeric predicates not spelled as numbers: [$n], [count(../*) - 1], [string-length(name())]): Exec(root,P/R) against the union of Exec(n,R); P/f() against f(P) for the 7 context-dependent builtins.",
+  text="All forests <=3/4 nodes x 4 decorations: every node of every kind as Exec starting cursor for ~190 relative expressions (vs. reference at context (n,1,1)); 30 prefixes x 50 suffixes (incl. numeric predicates not spelled as numbers: [$n], [count(../*) - 1], [string-length(name())]): Exec(root,P/R) against the union of Exec(n,R); the same composition on every ordered forest of 4-5 (thorough 6) elements; P/f() against f(P) for the 7 context-dependent builtins.",
   note="Unmarshal tag context is covered in C19.",
   ref="2 C18"),
  "C11": dict(
   level="exploration",
   technique="bounded-exhaustive enumeration of binding environments x documents x expressions against the reference evaluated under the same bindings; call logs of recording user functions compared",
-  text="27 binding environments (every other one handed over by assigning caller-built maps to the ContextSettings fields, as the CLI does; two prefixes each unbound/urn:u/urn:v incl. aliases x three function libraries incl. user count()/true() shadowing builtins; variables of all four types in three namespaces) x all forests <=3/4 nodes with namespaced elements/attributes x ~100 expressions using prefixed names, variables and calls (incl. prefixed calls spelling core functions; a bare node-set variable reference must return exactly the bound sequence); results and the (arguments, context, position, size) observed by user functions compared with the reference.",
+  text="27 binding environments (every other one handed over by assigning caller-built maps to the ContextSettings fields, as the CLI does; two prefixes each unbound/urn:u/urn:v incl. aliases x three function libraries incl. user count()/true() shadowing builtins; variables of all four types in three namespaces) x all forests <=3/4 nodes with namespaced elements/attributes x ~100 expressions using prefixed names, variables and calls (incl. prefixed calls spelling core functions; a bare node-set variable reference must return exactly the bound sequence); results and the (arguments, context, position, size) observed by user functions compared with the reference; ExecAsString / ExecAsNumber / ExecAsNodeset must give Exec's answer (converted) for every expression under every environment.",
   note="Assumes the library's documented 0-based ContextPosition(). Unbound names only in positions every evaluator must evaluate.",
   ref="2 C11"),
  "C12": dict(
   level="exploration",
   technique="bounded-exhaustive enumeration of documents x context nodes of every kind x name/count/lang expressions against the reference",
-  text="All forests <=3/4 nodes x 5 decorations: 100 name()/local-name()/namespace-uri()/count() expressions from every node of every kind; ~140 documents with xml:lang placements over 15 tag values (incl. every ordered arrangement of lang / p:lang / xml:lang on one element) x 50 lang() expressions from every node.",
+  text="All forests <=3/4 nodes x 6 decorations: 115 name()/local-name()/namespace-uri()/count() expressions (incl. unions of namespace and attribute nodes of one element) from every node of every kind; ~140 documents with xml:lang placements over 15 tag values (incl. every ordered arrangement of lang / p:lang / xml:lang on one element) x 50 lang() expressions from every node.",
   note="Trusted: refxp.NodeNames/Lang.",
   ref="2 C12"),
  "C08": dict(
   level="exploration",
   technique="exhaustive enumeration of all token strings up to a length bound plus grammar-derived ASTs in several renderings, against a reference recogniser/evaluator",
-  text="All token strings of length <=4 (quick) / <=5 (thorough) over a 26-token alphabet, joined with and without spaces: the reference recogniser decides expression vs. non-expression; non-expressions and XPath type errors must error, expressions must evaluate to the reference value. ~5000 generated ASTs (every sequence of <=3 steps over a 10-step alphabet abbreviated and expanded, context-dependent expressions in every argument slot of 9 functions, every triple of binary operators in both association shapes, unary minus/union vs. every operator, '*' everywhere, reserved-looking names, numeral/literal forms, nested predicates, filter paths, calls) rendered 6 ways on 3 documents against the reference evaluation of the generating tree; ~400 hand-listed lexical edge cases.",
+  text="All token strings of length <=4 (quick) / <=5 (thorough) over a 26-token alphabet, joined with and without spaces: the reference recogniser decides expression vs. non-expression; non-expressions and XPath type errors must error, expressions must evaluate to the reference value. ~5000 generated ASTs (every sequence of <=3 steps over a 10-step alphabet abbreviated and expanded, context-dependent expressions in every argument slot of 9 functions, every triple of binary operators in both association shapes, unary minus/union vs. every operator, '*' everywhere, reserved-looking names, numeral/literal forms, nested predicates, predicated steps after a mid-path '//', filter paths, calls) rendered 6 ways on 3 documents against the reference evaluation of the generating tree; ~400 hand-listed lexical edge cases.",
   note="Six open known findings, all in the generated lexer/grammar (gogll not available to regenerate): operator names reserved, '1.', '_' name start, whitespace inside QNames, Unicode spaces as whitespace, backslash escapes in literals. An error at the first Exec counts as rejection.",
   ref="2 C08"),
  "C09": dict(
   level="fault_enumeration",
   technique="bounded-exhaustive enumeration of abstract documents x serialisations through the real reader, with every truncation point, unbalancing tag mutation and reader deviation (short read / I/O error at every byte offset) enumerated",
-  text="Every XML-serialisable forest with <=3/4 nodes x 6 namespace schemes x 192 serialisations (text as literal/char-refs/CDATA/split, empty-element tags, XML declaration and four charsets with harness-transcoded bytes, DOCTYPE, prolog/epilog content): the cursor tree is compared with the abstract document including one owned namespace node per in-scope binding; every proper prefix that cuts markup or the document element, every unbalancing tag deletion/swap and a list of malformed inputs must error; one short read / one I/O error at every byte offset.",
+  text="Every XML-serialisable forest with <=3/4 nodes x 6 namespace schemes x 192 serialisations (text as literal/char-refs/CDATA/split, empty-element tags, XML declaration and four charsets with harness-transcoded bytes, DOCTYPE, prolog/epilog content): the cursor tree is compared with the abstract document including one owned namespace node per in-scope binding; every proper prefix that cuts markup or the document element, every unbalancing tag deletion/swap a list of malformed inputs and references to 85 undeclared entity names (incl. the HTML ones) must error; every document length 1-400 items (and 1023-20000) compared node by node; one short read / one I/O error at every byte offset.",
   note="Whitespace-only top-level text and truncation exactly between prolog items are not judged. Go's encoding/xml decides well-formedness details beyond tag balance.",
   ref="2 C09"),
  "C16": dict(
   level="fault_enumeration",
   technique="bounded-exhaustive enumeration of JSON values x whitespace regimes through the real reader, with every truncation point, structural-byte mutation and reader deviation enumerated, judged by an independent JSON recogniser",
-  text="Every JSON value with <=4/5 tokens and depth <=3 over unusual keys and 6/8 scalars, strings and keys spelling structural tokens, three whitespace regimes, concatenated top-level values: tree vs. direct recursive mapping; every proper prefix and every single structural-byte deletion/duplication: error iff not a complete value sequence; one short read / one I/O error at every byte offset.",
+  text="Every JSON value with <=4/5 tokens and depth <=3 over unusual keys and 6/8 scalars, strings and keys spelling structural tokens, three whitespace regimes, arrays and objects of every member count 1-120, concatenated top-level values: tree vs. direct recursive mapping; every proper prefix and every single structural-byte deletion/duplication: error iff not a complete value sequence; one short read / one I/O error at every byte offset.",
   note="Top-level values adjacent without whitespace are not judged.",
   ref="2 C16"),
  "C17": dict(
   level="exploration",
   technique="exhaustive enumeration of all tag-soup token strings up to a length bound through the real reader against an independent walk of the HTML5 parser's DOM",
-  text="Doctype + every token string of length <=4/5 over a 23-token and a 49-token tag-soup alphabet (namespace-looking attributes, multi-colon names, entities, raw-text elements): cursor tree vs. independent recursive walk of html.Parse; deep/wide families; 4 byte-order marks x 11 meta charset declarations x 9 payloads of high/invalid/multi-byte bytes (tree = html.Parse of the same bytes, no transcoding). Documents without a doctype are outside the statement: recorded, only required to return.",
+  text="Doctype + every token string of length <=4/5 over a 23-token and a 49-token tag-soup alphabet (namespace-looking attributes, multi-colon names, entities, raw-text elements): cursor tree vs. independent recursive walk of html.Parse; deep/wide families; every list length 1-300 and attribute count 1-64; 4 byte-order marks x 11 meta charset declarations x 9 payloads of high/invalid/multi-byte bytes (tree = html.Parse of the same bytes, no transcoding). Documents without a doctype are outside the statement: recorded, only required to return.",
   note="golang.org/x/net/html is the HTML5 algorithm the statement names (trusted).",
   ref="2 C17"),
  "C19": dict(
@@ -114,7 +114,7 @@ CHECKS.update({
  "C14": dict(
   level="model_checking",
   technique="stateless model checking of the real code under a cooperative scheduler: DFS over all thread schedules with iterative preemption bounding; library through proxy cursors whose accessors are scheduling points, CLI through on-the-fly source rewriting + go build -overlay (one process per execution)",
-  text="Library: 13 scenarios of 2-3 threads x 1-2 real Exec calls sharing tree, compiled expressions, caller maps and a caller slice with spare capacity; every schedule with <=2 (thorough 3) preemptions: each call returns its serial result, shared slices unchanged at every scheduling point, deep fingerprints unchanged. Worker bodies: 7 scenarios of 2-3 documents (XML with attributes/namespaces, HTML, JSON) read concurrently through the library's parsers with a scheduling point at every Pull and every 12-byte Read, every schedule with <=3 (thorough 4) preemptions, each tree equal to the tree built alone. CLI: the real main() (rewritten: go statements, channel ops, WaitGroup/Mutex, every stdout/stderr write are scheduling points) on 6 file/flag scenarios with -c 2..4: no deadlock, stdout = concatenation of exactly the serial per-file blocks (contiguous, intact, any order), nothing written after main returns, diagnostics present. Auxiliary: the same library bodies and concurrent document reads free-running under the race detector.",
+  text="Library: 15 scenarios of 2-3 threads x 1-2 real Exec calls sharing tree, compiled expressions, caller maps and a caller slice with spare capacity (two scenarios pass per-call bindings through the With* option helpers instead); every schedule with <=2 (thorough 3) preemptions: each call returns its serial result, shared slices unchanged at every scheduling point, deep fingerprints unchanged. Worker bodies: 7 scenarios of 2-3 documents (XML with attributes/namespaces, HTML, JSON) read concurrently through the library's parsers with a scheduling point at every Pull and every 12-byte Read, every schedule with <=3 (thorough 4) preemptions, each tree equal to the tree built alone. CLI: the real main() (rewritten: go statements, channel ops, WaitGroup/Mutex, every stdout/stderr write are scheduling points) on 6 file/flag scenarios with -c 2..4: no deadlock, stdout = concatenation of exactly the serial per-file blocks (contiguous, intact, any order), nothing written after main returns, diagnostics present. Auxiliary: the same library bodies and concurrent document reads free-running under the race detector.",
   note="Partial-order reduction for the library half: two audited executions per scenario take the full fingerprint of everything shared (proxy lists with spare capacity, real tree, compiled expressions, binding maps, caller slices, and - through a generated build overlay - every package-level variable of the library) at EVERY scheduling point, and a go/ast scan looks for writes to package-level variables outside init(); if nothing changes, every step is a read of shared state, steps are independent and all interleavings are trace-equivalent to the audited ones (evidence key library_reduction; not claimed otherwise). The CLI search prunes decisions already expanded from an identical global state (state key = per-thread operation/observation histories + channel contents + WaitGroup/mutex states + writes so far; validated at bound 1 against the unpruned search on every run). Quick caps each scenario of the bounded search (25000 / 4000 executions) and then reports exhaustive:false with the bounds completed. Interleavings below the granularity of tree accesses / user-function calls are only covered by the auxiliary -race pass. No hook is committed to /repo.",
   ref="2 C14"),
  "C20": dict(
@@ -126,7 +126,7 @@ CHECKS.update({
  "C15": dict(
   level="exploration",
   technique="exhaustive enumeration of all strings up to a length bound over five byte/token alphabets through every public entry point, in worker subprocesses",
-  text="All expression token strings (<=3/4 tokens incl. nil variables and user functions returning (nil,nil)/errors/panicking) built and executed on 2 documents under 3 binding sets; all expression byte strings <=4/5 over 23 symbols incl. invalid UTF-8, NUL and valid multi-byte characters; all XML/JSON byte strings <=5/6 and HTML token strings <=4/5 through the readers followed by 6 queries; the well-typed C01/C08 universes from every node (no 'xpath query panic'); an Unmarshal sweep (7 result shapes x 8 target shapes x 50 field types incl. defined types x tags); a catalogue of 150+ charset labels (supported, registered but unsupported, stateful, unknown, odd spellings) in XML declarations and HTML meta elements x 5 bodies; nesting-depth sweeps in subprocesses. Oracle: returns (value,nil) or (_,err); no panic escapes; the process survives.",
+  text="All expression token strings (<=3/4 tokens incl. nil variables and user functions returning (nil,nil)/errors/panicking) built and executed on 2 documents under 3 binding sets; all expression byte strings <=4/5 over 23 symbols incl. invalid UTF-8, NUL and valid multi-byte characters; all XML/JSON byte strings <=5/6 and HTML token strings <=4/5 through the readers followed by 6 queries; the well-typed C01/C08 universes from every node (no 'xpath query panic'); an Unmarshal sweep (7 result shapes x 8 target shapes x 50 field types incl. defined types x tags; 14 statically declared targets with tagged unexported fields); a catalogue of 150+ charset labels (supported, registered but unsupported, stateful, unknown, odd spellings) in XML declarations and HTML meta elements x 5 bodies; nesting-depth sweeps in subprocesses. Oracle: returns (value,nil) or (_,err); no panic escapes; the process survives.",
   note="Bounded exhaustive, not coverage-guided. Unmarshal targets are covered by C19. Termination of pathological parses (the GLL parser is super-linear in '/*/*...') beyond the sweep sizes is not judged.",
   ref="2 C15"),
 })
